@@ -987,6 +987,47 @@ fn grid() {
                 }
             }
         }
+        // trait forwarding of Vec: comparisons (also against slices and arrays), ordering with NaN inside,
+        // hashing, Debug with the caller's flags, Borrow / AsRef / Index, iteration by reference
+        {
+            use std::hash::{Hash, Hasher};
+            let fs = [0.0f64, 1.5, -1.0, f64::NAN, 2.0];
+            for i in 0..fs.len() {
+                for j in 0..fs.len() {
+                    for (la, lb) in [(0usize, 0usize), (1, 1), (2, 1), (1, 2), (3, 3)] {
+                        let a: Vec<f64> = (0..la).map(|k| fs[(i + k) % 5]).collect();
+                        let b: Vec<f64> = (0..lb).map(|k| fs[(j + k * 2) % 5]).collect();
+                        let (ba, bb) = (BVec::from_iter_in(a.iter().copied(), &bump), BVec::from_iter_in(b.iter().copied(), &bump));
+                        let same = (ba == bb) == (a == b) && (ba != bb) == (a != b) && (ba < bb) == (a < b) && (ba <= bb) == (a <= b)
+                            && (ba > bb) == (a > b) && (ba >= bb) == (a >= b) && ba.partial_cmp(&bb) == a.partial_cmp(&b)
+                            && (ba == &b[..]) == (a == &b[..])
+                            && format!("{:?}|{:8.2?}|{:#?}|{:+?}", ba, ba, ba, ba) == format!("{:?}|{:8.2?}|{:#?}|{:+?}", a, a, a, a);
+                        if !same { println!("Q vec_traits_f64 i={} j={} la={} lb={} | differs | -", i, j, la, lb); }
+                    }
+                }
+            }
+            let mut bad = 0;
+            for n in 0..6u32 {
+                for m in 0..6u32 {
+                    let a: Vec<u32> = (0..n).map(|k| k * 7 % 5).collect();
+                    let b: Vec<u32> = (0..m).map(|k| k * 3 % 5).collect();
+                    let (ba, bb) = (BVec::from_iter_in(a.iter().copied(), &bump), BVec::from_iter_in(b.iter().copied(), &bump));
+                    let h = |x: &dyn Fn(&mut std::collections::hash_map::DefaultHasher)| { let mut st = std::collections::hash_map::DefaultHasher::new(); x(&mut st); st.finish() };
+                    let ar3: [u32; 3] = [0, 2, 4];
+                    let ok = ba.cmp(&bb) == a.cmp(&b) && (ba == bb) == (a == b)
+                        && h(&|st| ba.hash(st)) == h(&|st| a.hash(st)) && h(&|st| ba.hash(st)) == h(&|st| a[..].hash(st))
+                        && (ba == ar3) == (a == ar3) && (ba == &ar3) == (a == &ar3)
+                        && format!("{:?}|{:#x?}|{:03?}", ba, ba, ba) == format!("{:?}|{:#x?}|{:03?}", a, a, a)
+                        && std::borrow::Borrow::<[u32]>::borrow(&ba) == &a[..] && AsRef::<[u32]>::as_ref(&ba) == &a[..]
+                        && (&ba).into_iter().copied().collect::<Vec<u32>>() == a && ba.iter().rev().copied().collect::<Vec<u32>>() == a.iter().rev().copied().collect::<Vec<u32>>()
+                        && (n == 0 || (ba[(n - 1) as usize] == a[(n - 1) as usize] && ba[..(n as usize / 2)] == a[..(n as usize / 2)]))
+                        && ba.clone().to_vec() == a && ba.first() == a.first() && ba.last() == a.last();
+                    let mut be = ba.clone(); be.extend(b.iter()); let mut se = a.clone(); se.extend(b.iter());
+                    if !ok || be.to_vec() != se { bad += 1; println!("Q vec_traits_u32 n={} m={} | differs | -", n, m); }
+                }
+            }
+            println!("Q vec_traits_sweep | {} | same", if bad == 0 { "same".to_string() } else { format!("{}_cases_differ", bad) });
+        }
         let st: String = "aé€𝄞z".chars().collect();
         let bs: bumpalo::collections::String = "aé€𝄞z".chars().collect_in(&bump);
         println!("Q collect_string | {} | {}", if bs.as_str() == st { "same" } else { bs.as_str() }, st);
